@@ -29,7 +29,10 @@ SPANS_TOK = ["aa", "`c d`", "`` `x` ``", "``x ` y``", "` `` `", "`it's \"q\"...`
              "<!-- \"c\" ... -->", "`{% t %}`", "x[^n]"]
 Q_TOK = ["'", '"', "it's", '"q', 'q"', "...", "a...", "…"]
 # appended later (earlier indices are referenced by known findings and must stay stable)
-LATE_TOK = ["`a\\|b`", "[l\\|m](u\\|v)", "<a href=\"x\\|y\">", "{% t a...b %}", "{{ v...w|f('it's') }}", "{# c...d #}", "<!-- c...d -->"]
+LATE_TOK = ["`a\\|b`", "[l\\|m](u\\|v)", "<a href=\"x\\|y\">", "{% t a...b %}", "{{ v...w|f('it's') }}", "{# c...d #}", "<!-- c...d -->",
+            # appended later: legal but unusual spellings
+            "[a](<>)", "[a]()", "<HTTP://U.V/it's>", "<o'r@b.cc>", "mailto:a@b.cc", "`` ` ``", "[![i](u 't')](v \"w\")", "[a][]", "<br/>",
+            "www.a.b/c_d.", "http://a.b/c)", "http://a.b/c?d=e&amp;f=\"g\"", "[a](u 'it''s')", "[a](</u v>)", "![](u)"]
 ALPH = SPANS_TOK + Q_TOK + LATE_TOK
 REPS = [ALPH.index(t) for t in ("aa", "`c d`", '[l](u "t")', "<http://u.v/it's>", "{% t a=\"x y\" b='z' %}", '"q', 'q"', "...", "it's")]
 
